@@ -748,8 +748,25 @@ fn ml_c12(ctx: &mut Ctx, rng: &mut ChaCha20Rng) {
     }
 }
 
+/// Universal parameters with more than 2^16 powers (the largest size explored anywhere in this machinery):
+/// length-dependent shortcuts in hand-written (de)serializers sit at such round numbers.
+fn huge_params_c12(ctx: &mut Ctx, rng: &mut ChaCha20Rng) {
+    let d = (1usize << 16) + range(rng, 0, 40);
+    let desc = json!({"max_degree": d, "powers_of_g": d + 1});
+    match attempt(|| Kzg::setup(d, false, rng)) {
+        Err(o) => ctx.violated("honest-pipeline-refused", "KZG10::setup", desc, json!({"outcome": o.json()})),
+        Ok(pp) => {
+            if let Some(pp2) = super::c12::roundtrip::<kzg10::UniversalParams<E>>(ctx, "universal-params", &pp, &desc, rng) {
+                let same = pp2.powers_of_g.len() == pp.powers_of_g.len() && pp2.powers_of_g.last() == pp.powers_of_g.last() && pp2.powers_of_gamma_g.len() == pp.powers_of_gamma_g.len();
+                ctx.check(same, "roundtrip[universal-params]", "deserialize", desc, || json!({"powers_of_g": [pp.powers_of_g.len(), pp2.powers_of_g.len()]}));
+            }
+        }
+    }
+}
+
 pub fn c12(ctx: &mut Ctx) {
     let n = ctx.n(60, 1200);
+    ctx.run_cases("kzg10/huge-params", 1, |ctx, _i, rng| huge_params_c12(ctx, rng));
     ctx.run_cases("kzg10", n, |ctx, _i, rng| kzg_c12(ctx, rng));
     ctx.run_cases("mlpst", n / 2, |ctx, _i, rng| ml_c12(ctx, rng));
 }
